@@ -2,7 +2,7 @@
 # seed_verify.sh <ID> <k> : confirm a sub-agent's mutant in its scratch worktree /tmp/mut/<ID> and keep it under /verif/seeded/
 # confirms: patch applies; project builds; 12 tests pass; demo fails with the patch; demo passes without it.
 set -u
-ID=$1; K=$2; W=/tmp/mut/$ID; M=$W/out/m$K; OUT=/verif/seeded/${ID}_m$K
+ID=$1; K=$2; BASE=${3:-/tmp/mut}; TAG=${4:-m}; W=$BASE/$ID; M=$W/out/m$K; OUT=/verif/seeded/${ID}_$TAG$K
 [ -f $M/patch.diff ] || { echo "no patch $M"; exit 2; }
 cd $W && git checkout -q -- . && git apply --check $M/patch.diff || { echo "patch does not apply"; exit 2; }
 export TMPDIR=$W/_build/tmp; mkdir -p $TMPDIR
@@ -17,10 +17,10 @@ bash $M/demo.sh $W > $TMPDIR/demo_clean.log 2>&1; rc_clean=$?
 echo "$ID m$K: files=[$files] tests='$tests' demo_with_mutant_rc=$rc_mut demo_clean_rc=$rc_clean"
 if [[ "$tests" == "100% tests passed"* && $rc_mut -ne 0 && $rc_clean -eq 0 ]]; then
   mkdir -p $OUT && cp $M/patch.diff $M/demo.cpp $M/demo.sh $M/notes.md $OUT/ 2>/dev/null
-  python3 - "$ID" "$K" "$files" "$tests" "$rc_mut" "$rc_clean" <<'PY'
+  python3 - "$ID" "$K" "$files" "$tests" "$rc_mut" "$rc_clean" "$OUT" <<'PY'
 import json,sys,os
 ID,K,files,tests,rm,rc=sys.argv[1:7]
-out='/verif/seeded/%s_m%s'%(ID,K)
+out=sys.argv[7]
 notes=open(out+'/notes.md').read() if os.path.exists(out+'/notes.md') else ''
 meta={"breaks_property":ID,"files_touched":files.split(),"needs_to_manifest":"see notes.md (written by the sub-agent that produced the change)",
  "confirmed":{"existing_tests":tests,"demo_exit_with_change":int(rm),"demo_exit_without_change":int(rc),
